@@ -386,6 +386,10 @@ func (it *k4interp) lookup(key string, t types.Type) (k4val, error) {
 		if isNumeric(t) {
 			return k4val{kind: 2, f: 0}, nil
 		}
+		if _, isSlice := t.Underlying().(*types.Slice); isSlice {
+			it.frameID++
+			return k4val{kind: 8, s: fmt.Sprintf("NIL%d", it.frameID), ln: 0, cp: 0}, nil
+		}
 	}
 	if it.answer != nil && (isBoolT(t) || isNumeric(t)) {
 		if v, ok := it.answer(key, isBoolT(t)); ok {
